@@ -11,17 +11,16 @@ import z3
 VENV_PY = "/venv/bin/python"
 
 
-def f1_z3(timeout_s=120):
-    a = z3.Int("a")
+def f1_z3(timeout_s=300):
+    a = z3.BitVec("a", 32)
     f64 = z3.Float64()
     rne = z3.RNE()
-    bv = z3.Int2BV(a, 32)
-    fa = z3.fpSignedToFP(rne, bv, f64)                       # float(a): exact below 2**53
+    fa = z3.fpSignedToFP(rne, a, f64)                        # float(a): exact below 2**53
     q = z3.fpDiv(rne, fa, z3.FPVal(1000.0, f64))
-    t = z3.fpToSBV(z3.RTZ(), q, z3.BitVecSort(32))           # int(): truncation
+    t = z3.fpToSBV(z3.RTZ(), q, z3.BitVecSort(32))           # int(): truncation toward zero
     s = z3.Solver()
     s.set("timeout", timeout_s * 1000)
-    s.add(a >= 0, a < 10 ** 6, z3.BV2Int(t, True) != a / 1000)
+    s.add(z3.ULT(a, z3.BitVecVal(10 ** 6, 32)), t != z3.UDiv(a, z3.BitVecVal(1000, 32)))
     t0 = time.time()
     r = s.check()
     return str(r), time.time() - t0
